@@ -200,6 +200,11 @@ def run(ctx, ids=("R06-IDX", "R06-OPS", "R06-NOPANIC"), own=True):
             if site:
                 rn.violate("%s: %s" % (fid, site), "panic-capable site in a stack node", repo.loc(n.get("sp")))
     rn.require(3, "index sites")
+    if own:
+        # the grammar's PUSH / PEEK / POP / DROP / PEEK_ALL / POP_ALL / PEEK[a..b] reach the node of the same role with the same
+        # constants, under both generators (seed C06-7: the raw generator emitted PeekSlice2<END, START>): C01's operator map
+        from . import c01
+        ctx.adopt(c01.run_opmap, {"R01-OPMAP": "R06-OPMAP"})
     ctx.assume("text equality on inputs is match_string's own behaviour (C01/C09 rules)")
     ctx.assume("pest::Stack's Index<Range<usize>> panics only when the range is out of bounds")
     ctx.explanation = ("Stack built-ins are checked on their effect decision trees: which stack operation, on which entry's text, in which "
